@@ -68,24 +68,55 @@ def expected_table(kind, elems, boxes):
     return E, NT
 
 
+EPS_Q = 1024          # oracle works in lattice units x 1024: the shifted corners are integers again
+
+
+def eps_expected(kind, elems, boxes):
+    """expected tables for the boxes shrunk / grown by 1/1024 lattice unit on every side"""
+    def scale(e):
+        if e is None or e == ():
+            return e
+        if kind == "point":
+            return (e[0] * EPS_Q, e[1] * EPS_Q)
+        if kind in ("multipoint", "line", "ring"):
+            return tuple((x * EPS_Q, y * EPS_Q) for x, y in e)
+        if kind in ("multiline", "polygon"):
+            return tuple(tuple((x * EPS_Q, y * EPS_Q) for x, y in part) for part in e)
+        return tuple(tuple(tuple((x * EPS_Q, y * EPS_Q) for x, y in r) for r in poly) for poly in e)
+    sel = boxes[::3]
+    out = {}
+    for name, d in (("shrunk", 1), ("grown", -1)):
+        ib = [(b[0] * EPS_Q + d, b[1] * EPS_Q + d, b[2] * EPS_Q - d, b[3] * EPS_Q - d) for b in sel]
+        ib = [b for b in ib if b[0] < b[2] and b[1] < b[3]] if kind not in ("point", "multipoint") else [b for b in ib if b[0] <= b[2] and b[1] <= b[3]]
+        X0, Y0, X1, Y1 = L.boxes_arrays(ib)
+        Ee = np.zeros((len(elems), len(ib)), dtype=bool)
+        for i, e in enumerate(elems):
+            Ee[i] = O.elem_hits_boxes(kind, scale(e), X0, Y0, X1, Y1)
+        out[name] = (Ee, [tuple(v / EPS_Q for v in b) for b in ib])
+    return out
+
+
 def check_chunk(col, kind, elems, boxes, subtypes, seed, scalar_stride=1, chunk_id=0,
-                only=None):
+                only=None, eps=True, T_fixed=None):
     """elems: list of lattice elements (may contain None and ()). boxes: ordered lattice boxes."""
     import pandas as pd  # noqa: F401
     from spatialpandas import GeoSeries
     E, NT = expected_table(kind, elems, boxes)
     col.count("nontrivial", NT)
+    eps_tables = eps_expected(kind, elems, boxes) if eps else None
     n = len(elems)
     base = {"kind": kind, "elems": [jelem(e) for e in elems]}
 
     for sti, st in enumerate(subtypes):
-        T = L.transform_for(st, seed, salt=chunk_id)
+        T = T_fixed or L.transform_for(st, seed, salt=chunk_id)
         el = elems
         Ex = E
+        keep_idx = None
         if kind == "point" and not st.startswith("float"):
             keep = [i for i, e in enumerate(elems) if e != ()]
             el = [elems[i] for i in keep]
             Ex = E[keep]
+            keep_idx = keep
         try:
             arr = L.make_array(kind, el, st, T)
         except Exception as ex:
@@ -94,6 +125,14 @@ def check_chunk(col, kind, elems, boxes, subtypes, seed, scalar_stride=1, chunk_
         # a slice with non-zero pyarrow offset, and the same elements re-packed behind a prefix
         sl_a, sl_b = (2, len(el) - 1) if len(el) > 4 else (0, len(el))
         arr_sl = arr[sl_a:sl_b]
+        # the same elements in an object whose spatial index has already been built (state carried on the object)
+        try:
+            arr_ix = L.make_array(kind, el, st, T)
+            arr_ix.build_sindex(page_size=(2, 512)[sti % 2])
+            _ = arr_ix.sindex.total_bounds
+        except Exception as ex:
+            arr_ix = None
+            col.violation(f"{kind}.sindex.raises", dict(base, subtype=st, T=list(T)), f"{type(ex).__name__}: {ex}")
         ivs = inds_vectors(len(el))
         for bi, box in enumerate(boxes):
             tb = L.tf_box(T, box)
@@ -115,6 +154,15 @@ def check_chunk(col, kind, elems, boxes, subtypes, seed, scalar_stride=1, chunk_
                                   f"element {bad} {jelem(el[bad]) if bad >= 0 else ''} box {box} order {oi}: "
                                   f"got {got[bad] if bad >= 0 else got.shape} expected {exp[bad] if bad >= 0 else exp.shape}",
                                   subtype=st)
+                if arr_ix is not None and (oi + bi) % 2 == 0:
+                    col.count("evaluations", len(el))
+                    gix = np.asarray(arr_ix.intersects_bounds(ob))
+                    if gix.shape != exp.shape or (gix != exp).any():
+                        bad = int(np.nonzero(gix != exp)[0][0]) if gix.shape == exp.shape else -1
+                        col.violation(f"{kind}.array_with_sindex", dict(base, subtype=st, T=list(T), box=list(box),
+                                                                    order=oi, form="array_with_sindex", index=bad),
+                                      f"after build_sindex: element {bad} box {box} order {oi}: got {gix[bad] if bad >= 0 else gix.shape} "
+                                      f"expected {exp[bad] if bad >= 0 else exp.shape}", subtype=st)
                 if oi != (bi + sti) % 4:
                     continue
                 # ---- sliced array (non-zero offset), one corner order per box
@@ -140,6 +188,25 @@ def check_chunk(col, kind, elems, boxes, subtypes, seed, scalar_stride=1, chunk_
                         col.violation(f"{kind}.inds", dict(base, subtype=st, T=list(T), box=list(box),
                                                            order=oi, form="inds", inds=iv.tolist()),
                                       f"inds={iv.tolist()} got {got.tolist()} expected {exp[iv].tolist()}",
+                                      subtype=st)
+        # ---- boxes whose corners lie a tiny dyadic step (2^-10 lattice units) inside / outside the lattice lines:
+        #      exact in float64, NOT representable in a narrow type next to a large coordinate
+        if eps_tables is not None:
+            for name, (Ee, ebx) in eps_tables.items():
+                for bi in range((sti + chunk_id) % 2, len(ebx), 2):
+                    fb = ebx[bi]
+                    tb = (T[0] * fb[0] + T[1], T[0] * fb[1] + T[2], T[0] * fb[2] + T[1], T[0] * fb[3] + T[2])
+                    oi = (bi + sti) % 4
+                    ob = orders(tb)[oi]
+                    expe = Ee[keep_idx, bi] if keep_idx is not None else Ee[:, bi]
+                    col.count("evaluations", len(el))
+                    got = np.asarray(arr.intersects_bounds(ob))
+                    if got.shape != expe.shape or (got != expe).any():
+                        bad = int(np.nonzero(got != expe)[0][0]) if got.shape == expe.shape else -1
+                        col.violation(f"{kind}.array_eps_box", dict(base, subtype=st, T=list(T), box=[float(v) for v in fb],
+                                                                order=oi, form="array", eps=name, index=bad),
+                                      f"{name} box {fb}: element {bad} {jelem(el[bad]) if bad >= 0 else ''}: got "
+                                      f"{got[bad] if bad >= 0 else got.shape} expected {expe[bad] if bad >= 0 else expe.shape}",
                                       subtype=st)
         # ---- GeoSeries wrapper (thin): every box, one order
         if sti == seed % len(subtypes):
@@ -178,6 +245,34 @@ def check_chunk(col, kind, elems, boxes, subtypes, seed, scalar_stride=1, chunk_
     col.outcome("false", int((~E).sum()))
     col.sample({"kind": kind, "element": jelem(elems[min(3, n - 1)]), "box": list(boxes[len(boxes) // 2]),
                 "expected": bool(E[min(3, n - 1), len(boxes) // 2])})
+
+
+def huge_units():
+    """segments about 2^26 long that pass within one unit of small boxes around the origin: the determinants
+    the kernels compute are tiny exact integers while the products they are built from reach 2^52 (still exact)"""
+    import itertools
+    M = 2 ** 25
+    P = [(-M, -M), (M, M), (M, M - 1), (M - 1, M), (-M, -M + 1), (-M + 1, -M), (M, -M), (-M, M), (M, 0), (-M, 0), (0, M), (0, -M),
+         (M, 1), (-M, -1), (1, M), (-1, -M), (M, 2), (-M, -2)]
+    near = [(0, 0), (1, 0), (0, 1), (-1, -1), (2, 1)]
+    vals = [-2, -1, 0, 1, 2]
+    boxes = [(x0, y0, x1, y1) for x0 in vals for x1 in vals if x0 < x1 for y0 in vals for y1 in vals if y0 < y1]
+    lines = list(itertools.permutations(P, 2))
+    units = []
+    for c in range(0, len(lines), CHUNK):
+        units.append(("line", [None] + lines[c:c + CHUNK], boxes))
+    units.append(("multiline", [(a, b) for a, b in zip(lines[::7], lines[3::7])][:CHUNK], boxes))
+    tris = []
+    for a, b in list(itertools.combinations(P, 2))[::2]:
+        for c in near:
+            t = (a, b, c, a)
+            if O.signed_area2_ring(t) != 0:
+                tris.append((t,))
+    for c in range(0, len(tris), CHUNK):
+        units.append(("polygon", tris[c:c + CHUNK] + [()], boxes))
+    units.append(("multipolygon", [(tris[i], tris[-1 - i]) for i in range(0, 40)
+                                   if True][:24], boxes))
+    return units
 
 
 def plan(ctx):
@@ -228,17 +323,33 @@ def run(ctx):
     units = plan(ctx)
     rot = ctx.seed % max(1, len(units))
 
+    hu = huge_units()
+    if not ctx.thorough:
+        hu = hu[ctx.seed % 2::2] if len(hu) > 8 else hu
+    nu = len(units)
+
     def work(col, i):
+        if i >= nu:
+            kind, el, boxes = hu[i - nu]
+            if kind == "multipolygon":
+                # parts of a multipolygon must not overlap: keep pairs whose triangles are disjoint by construction? they are
+                # arbitrary here, so only the segment / vertex behaviour is comparable -> use them as separate polygons instead
+                kind, el = "polygon", [p for mp in el for p in mp]
+            check_chunk(col, kind, el, boxes, ("float64", "int64", "int32"), ctx.seed, 16, chunk_id=i, eps=False,
+                        T_fixed=(1, 0, 0))
+            return
         j = (i + rot) % len(units)
         kind, el, boxes, stride = units[j]
         check_chunk(col, kind, el, boxes, L.SUBTYPES, ctx.seed, stride, chunk_id=j)
 
-    core.pmap(ctx, work, len(units))
+    core.pmap(ctx, work, len(units) + len(hu))
     ctx.rule = ("every element of the lattice families (points, multipoints <=3, all vertex sequences for "
                 "lines, every simple lattice polygon in every rotation/direction, holes family, multi-part "
                 "pools, plus missing and empty) x every lattice box (degenerate too for point kinds) x 4 "
                 "corner orders x 5 subtypes, whole-array form; sliced array, inds vectors, GeoSeries and "
-                "scalar form per box on one rotating corner order. distinct_nontrivial counts (element, box) "
+                "scalar form per box on one rotating corner order; arrays with a built spatial index; boxes shrunk / grown by 2^-10 "
+                "lattice units; a family of 2^26-long segments / triangles passing within one unit of small boxes at the origin "
+                "(float64, int64, int32). distinct_nontrivial counts (element, box) "
                 "pairs whose bbox overlaps the box without being contained in it.")
     ctx.coverage_extra["units"] = len(units)
     ctx.coverage_extra["elements"] = sum(len(u[1]) for u in units)
